@@ -666,6 +666,7 @@ func runC13Memory(ctx *core.Ctx) *core.Violation {
 	maxTok := t.Pick(1, 4, 16, 40)
 	maxLA := t.Pick(0, 1, 4)
 	useShiftLen := t.Chance(1, 2)
+	skipTokens := t.Chance(1, 2)
 	// Free discipline: every token is freed, either at once, with a constant lag of `lag`
 	// tokens, or in batches of `lag`+1 tokens; at most lag+1 tokens are ever outstanding.
 	lagKind := t.Weighted(2, 1, 1)
@@ -734,9 +735,14 @@ func runC13Memory(ctx *core.Ctx) *core.Violation {
 				return m.viol("peek-wrong", "memory family: Peek(%d) at abs %d = %#x want %#x", la, m.pos, got, m.want(m.pos+la))
 			}
 		}
-		b := m.z.Shift()
-		if !eq(b, m.vis[m.start:m.pos]) {
-			return m.viol("shift-wrong", "memory family: Shift() = %q want %q at abs %d", clip(b), clip(m.vis[m.start:m.pos]), m.start)
+		if skipTokens && ops.Draw(4) == 0 {
+			m.z.Skip() // a token the caller is not interested in (whitespace, a comment): counts for ShiftLen and Free like a shifted one
+			ctx.Count("probe_memory_family_skips")
+		} else {
+			b := m.z.Shift()
+			if !eq(b, m.vis[m.start:m.pos]) {
+				return m.viol("shift-wrong", "memory family: Shift() = %q want %q at abs %d", clip(b), clip(m.vis[m.start:m.pos]), m.start)
+			}
 		}
 		n := m.pos - m.start
 		m.start = m.pos
